@@ -36,8 +36,8 @@ PKGNAME = {"root": "gomatrixserverlib", "fclient": "fclient", "spec": "spec", "t
 KIT = ["vf_kit_test.go"]
 PROPS = {}
 
-def prop(pid, files, shared=None, fuzz=(), race=False, assumptions=(), timeout_quick=600, timeout_thorough=3600, rapidfuzz=(), fatalwatch=False):
-    PROPS[pid] = dict(files=files, shared=shared or {}, fuzz=list(fuzz), race=race, rapidfuzz=list(rapidfuzz), fatalwatch=fatalwatch,
+def prop(pid, files, shared=None, fuzz=(), race=False, assumptions=(), timeout_quick=600, timeout_thorough=3600, rapidfuzz=(), fatalwatch=False, quick_shards=4):
+    PROPS[pid] = dict(files=files, shared=shared or {}, fuzz=list(fuzz), race=race, rapidfuzz=list(rapidfuzz), fatalwatch=fatalwatch, quick_shards=quick_shards,
                       assumptions=list(assumptions), tq=timeout_quick, tt=timeout_thorough)
 
 exec(open(os.path.join(VERIF, "props.py")).read())
@@ -231,7 +231,10 @@ def check(pid, tier, seed, keep=False):
                 if not p["name"].startswith(pid + "/"):
                     continue
                 rules[p["name"]] = p["rule"]
-                nshards = 1 if tier == "quick" else max(1, p["shards"])
+                # quick tier: rapid sub-properties run quick_shards processes of the full quick count each
+                # (different seeds); enumerators run once, unpartitioned
+                qs = min(cfg["quick_shards"], max(1, p["shards"])) if p["kind"] == "rapid" else 1
+                nshards = qs if tier == "quick" else max(1, p["shards"])
                 amount = p["quick"] if tier == "quick" else p["thorough"]
                 for sh in range(nshards):
                     sp = os.path.join(statsdir, "%s-%d.json" % (slug(p["name"]), sh))
@@ -241,7 +244,7 @@ def check(pid, tier, seed, keep=False):
                            "-rapid.nofailfile", "-rapid.seed", str(seed_value(seed, sh)),
                            "-rapid.shrinktime", "20s" if tier == "quick" else "60s"]
                     if p["kind"] == "rapid":
-                        n = max(1, amount // nshards)
+                        n = amount if tier == "quick" else max(1, amount // nshards)
                         cmd += ["-rapid.checks", str(n)]
                     if cfg.get("fatalwatch"):
                         env["VF_CURCASE"] = sp + ".cur"
